@@ -1760,9 +1760,9 @@ impl ToBitStream for Streaminfo {
         w.write::<3, _>(self.channels)?;
         w.write_count(
             self.bits_per_sample
+                .count()
                 .checked_sub::<0b11111>(1)
-                .unwrap()
-                .count(),
+                .unwrap(),
         )?;
         w.write::<36, _>(self.total_samples)?;
         w.write_from(self.md5.unwrap_or([0; 16]))?;
